@@ -36,7 +36,7 @@ enum { E_APIENTER = 1, E_APIEXIT, E_CBENTER, E_CBEXIT, E_ACQ, E_REL };
 static const char *KN[] = {"", "ApiEnter", "ApiExit", "CbEnter", "CbExit", "Acquire", "Release"};
 static const char *APIS[] = {"io_process", "new_pdu", "send", "notify", "new_session", "session_release", "resource_add", "resource_delete",
                              "max_pdu_size", "new_cache_key", "cache_entry", "io_pending", "register_async", "find_async", "free_async",
-                             "session_ping", "cancel_observe", "get_resource", "set_app_data", "delete_cache_key"};
+                             "session_ping", "cancel_observe", "get_resource", "set_app_data", "delete_cache_key", "session_reference"};
 static const char *CBS[] = {"request", "response", "nack", "event", "ping", "pong"};
 
 static void logev(int kind, int what) {
@@ -177,6 +177,10 @@ static void *worker(void *arg) {
       if (pdu) {
         coap_add_token(pdu, 4, tok);
         coap_add_option(pdu, COAP_OPTION_URI_PATH, 1, (const uint8_t *)"a");
+        /* a Non-confirmable request with a critical option the server does not know is answered with a Reset: the NACK handler is
+           then called without a PDU (nothing is queued for a NON) - one more way into a callback */
+        if (!(r & 1) && k % 3 == 0)
+          coap_add_option(pdu, 65003, 1, (const uint8_t *)"z");
         API(2, m = coap_send(s, pdu));
         (void)m;
       }
@@ -188,6 +192,10 @@ static void *worker(void *arg) {
       coap_session_t *s = NULL;
       API(4, s = coap_new_client_session(ctx, NULL, &srv, COAP_PROTO_UDP));
       if (s) API(5, coap_session_release(s));
+      /* a second holder of a session that other threads use: the count is library state like any other */
+      s = csess[(id + k) % 4];
+      API(20, coap_session_reference(s));
+      API(5, coap_session_release(s));
     } else if (r < 75 && with_resources) {
       char name[16];
       coap_resource_t *nr;
